@@ -75,12 +75,10 @@ CONTRACTS = {
     ),
     "Program.reset": dict(
         modifies=["self.equation", "self.es_tensors", "self.loop_order", "self.partitioning", "self.spacetime"] + TENSOR_STATE,
-        requires=["all(not same_ref(t.ranks, t.init_ranks) for t in self.tensors.values())"],
         ensures=[("fresh", "fresh_program(self)"),
                  ("tensor_set_kept", "same_ref(self.tensors, old(self.tensors))")],
         loops={0: dict(idx="k", enum="vals",
-                       inv=[("reset_so_far", "all(fresh_tensor(self.tensors[vals[j]]) for j in range(k))"),
-                            ("rest_wf", "all(not same_ref(t.ranks, t.init_ranks) for t in self.tensors.values())")])},
+                       inv=[("reset_so_far", "all(fresh_tensor(self.tensors[vals[j]]) for j in range(k))")])},
     ),
 }
 
@@ -101,3 +99,161 @@ CONTRACTS.update({
         ensures=[("name", "result == 'tmp' + str(self.count)")],
     ),
 })
+
+# ---------------------------------------------------------------- HiFiber.__translate and what it calls
+# Frames of the collaborators as seen from Program/Tensor state. They are ASSUMED (listed in evidence); what
+# justifies them is the encapsulation lemma (checked structurally on every run): Program fields are written
+# only by Program's methods, Tensor fields only by Tensor's methods.
+def _opaque_ctor(params, extra_mod=()):
+    return dict(params=["self"] + params, assumed=True, modifies=TENSOR_STATE + list(extra_mod), returns="None")
+
+
+CONTRACTS.update({
+    "Program.add_einsum": dict(
+        # proved separately (frame + definite assignment); used here through its contract
+        requires=["fresh_program(self)", "i >= 0"],
+        raises={"ValueError": None},
+        modifies=CONFIG + TENSOR_STATE,
+        ensures=[("configured", "self.equation is not None and self.loop_order is not None "
+                                "and self.partitioning is not None and self.coord_math is not None "
+                                "and self.einsum_ind == i"),
+                 ("tensor_set_kept", "same_ref(self.tensors, old(self.tensors))")],
+    ),
+    "Metrics.__init__": _opaque_ctor(["program", "hardware", "format_"]),
+    "Fusion.add_einsum": dict(params=["self", "program"], assumed=True, modifies=[], raises={"ValueError": None},
+                              returns="None"),
+    "FlowGraph.__init__": dict(params=["self", "program", "metrics", "opts"], assumed=True, returns="None",
+                               modifies=TENSOR_STATE, raises={"ValueError": None, "AssertionError": None}),
+    "FlowGraph.get_sorted": dict(params=["self"], assumed=True, observer=True, returns="List[Node]"),
+    "Graphics.__init__": _opaque_ctor(["program", "metrics"]),
+    "Partitioner.__init__": _opaque_ctor(["program", "trans_utils"]),
+    "Header.__init__": _opaque_ctor(["program", "metrics", "partitioner"]),
+    "IterationGraph.__init__": _opaque_ctor(["program"]),
+    "TransEquation.__init__": _opaque_ctor(["program", "metrics"]),
+    "Collector.__init__": _opaque_ctor(["program", "metrics", "fusion"]),
+    "HiFiber.__trans_nodes": dict(
+        raises={"ValueError": None},
+        modifies=TENSOR_STATE + ["*.count"],
+        ensures=[],
+        assumed_body=True,       # its own contract (bracket structure) is proved under C10
+    ),
+    "HiFiber.__translate": dict(
+        aliases={"Equation": "TransEquation"},
+        requires=["fresh_program(self.program)", "i >= 0"],
+        raises={"ValueError": None, "AssertionError": None},
+        modifies=["self.metrics", "self.graphics", "self.partitioner", "self.header", "self.graph", "self.eqn",
+                  "self.collector", "*.count",
+                  "*.einsum_ind", "*.equation", "*.es_tensors", "*.coord_math", "*.loop_order", "*.partitioning",
+                  "*.spacetime"] + TENSOR_STATE,
+        ensures=[("program_fresh_again", "fresh_program(self.program)"),
+                 ("same_program", "same_ref(self.program, old(self.program))")],
+    ),
+})
+
+# ---------------------------------------------------------------- collaborators of Program.add_einsum (assumed frames)
+CONTRACTS.update({
+    "Equation.__init__": dict(params=["self", "equation", "tensors"], assumed=True, returns="None",
+                              modifies=["*.is_output"], raises={"ValueError": None}),
+    "Equation.get_tensors": dict(params=["self"], assumed=True, observer=True, returns="List[Tensor]"),
+    "Equation.get_trees": dict(params=["self"], assumed=True, observer=True, returns="List[Tree]"),
+    "Equation.get_output": dict(params=["self"], assumed=True, observer=True, returns="Tensor"),
+    "CoordMath.__init__": dict(params=["self"], assumed=True, returns="None", modifies=[]),
+    "CoordMath.prune": dict(params=["self", "roots"], assumed=True, returns="None", modifies=[]),
+    "LoopOrder.__init__": dict(params=["self", "equation"], assumed=True, returns="None", modifies=[]),
+    "LoopOrder.add": dict(params=["self", "loop_order", "coord_math", "partitioning"], assumed=True, returns="None",
+                          modifies=[], raises={"ValueError": None}),
+    "LoopOrder.get_available_roots": dict(params=["self"], assumed=True, observer=True, returns="Set[str]"),
+    "Partitioning.__init__": dict(params=["self", "partitioning", "ranks", "coord_math"], assumed=True,
+                                  returns="None", modifies=[], raises={"ValueError": None}),
+    "SpaceTime.__init__": dict(params=["self", "yaml", "partitioning", "name"], assumed=True, returns="None",
+                               modifies=[], raises={"ValueError": None}),
+    "Mapping.get_partitioning": dict(params=["self"], assumed=True, observer=True, returns="Dict[str, Any]"),
+    "Mapping.get_loop_orders": dict(params=["self"], assumed=True, observer=True, returns="Dict[str, List[str]]"),
+    "Mapping.get_spacetime": dict(params=["self"], assumed=True, observer=True, returns="Dict[str, Any]"),
+    "Program.__add_ranks": dict(raises={"ValueError": None}, modifies=[], assumed_body=True),
+    "Program.__all_ranks": dict(raises={"ValueError": None}, modifies=[], fresh_result=True, assumed_body=True),
+})
+
+
+# ---------------------------------------------------------------- native small-scope generators
+_SPECS = [
+    ("""einsum:
+  declaration:
+    A: [K, M]
+    B: [K, N]
+    T: [M, N]
+    Z: [M, N]
+  expressions:
+    - T[m, n] = A[k, m] * B[k, n]
+    - Z[m, n] = T[m, n] + A[n, m]
+""", """mapping:
+  rank-order:
+    A: [M, K]
+  loop-order:
+    T: [K, M, N]
+  partitioning:
+    Z:
+      M: [uniform_shape(4)]
+"""),
+    ("""einsum:
+  declaration:
+    A: [I, J]
+    Z: [I]
+  expressions:
+    - Z[i] = A[i, j]
+""", """mapping:
+  partitioning:
+    Z:
+      (I, J): [flatten()]
+      IJ: [uniform_occupancy(A.3)]
+"""),
+]
+
+
+def _programs():
+    from teaal.parse.einsum import Einsum
+    from teaal.parse.mapping import Mapping
+    from teaal.ir.program import Program
+    for es, ms in _SPECS:
+        yield Program(Einsum.from_str(es), Mapping.from_str(ms)), Einsum.from_str(es), Mapping.from_str(ms)
+
+
+def _gen_reset():
+    for p, _, _ in _programs():
+        yield p, ()
+    for p, e, _ in _programs():
+        for i in range(len(e.get_expressions())):
+            q = next(x for x, _, _ in _programs() if x.einsum == p.einsum)
+            q.add_einsum(i)
+            out = q.get_equation().get_output()
+            q.apply_all_partitioning(out)
+            for t in q.get_equation().get_tensors():
+                q.get_loop_order().apply(t)
+                if t.peek() is not None:
+                    t.pop()
+            yield q, ()
+
+
+def _gen_add_einsum():
+    for p, e, _ in _programs():
+        for i in range(len(e.get_expressions())):
+            q = next(x for x, _, _ in _programs() if x.einsum == p.einsum)
+            yield q, (i,)
+
+
+def _gen_prog_init():
+    from teaal.ir.program import Program
+    for _, e, m in _programs():
+        yield Program.__new__(Program), (e, m)
+
+
+def _gen_tu():
+    from teaal.trans.utils import TransUtils
+    for c in (-1, 0, 3, 41):
+        t = TransUtils(None)
+        t.count = c
+        yield t, ()
+
+
+GEN = {"Program.reset": _gen_reset, "Program.add_einsum": _gen_add_einsum, "Program.__init__": _gen_prog_init,
+       "TransUtils.next_tmp": _gen_tu, "TransUtils.curr_tmp": _gen_tu}
